@@ -148,7 +148,11 @@ def _main(mod, argv=None):
         for c in r['cex']:
             by_tag.setdefault(c['tag'], []).append(c)
     violations, known_hits, unreproduced = [], [], []
+    skipped_replays = 0
     for tag, cs in sorted(by_tag.items()):
+        if len(violations) >= 12:
+            skipped_replays += 1      # enough confirmed violations to report; the remaining classes are not replayed
+            continue
         confirmed = None
         for c in cs[:6]:
             try:
@@ -229,7 +233,8 @@ def _main(mod, argv=None):
             'solver_queries': queries, 'solver_time_s': round(solver_time, 3),
             'paths_explored': paths,
             'controls': controls,
-            'counterexamples_replayed': len(by_tag),
+            'counterexamples_replayed': len(by_tag) - skipped_replays,
+            'counterexample_classes_not_replayed': skipped_replays,
             'known_findings_hit': [k['tag'] for k, _ in known_hits],
             'unreproduced': unreproduced,
             'harness_errors': len(errors),
